@@ -888,8 +888,10 @@ def _h_state(cx, cfg):
         lonP, latP = W2.image2sky(fs.P[0], fs.P[1])
         res = c["residual"]
         cx.check_eq("sky2image(find=True): latitude residual = image2sky(x, y) - requested latitude", res[1], _first(latP) - lat)
-        cx.check("sky2image(find=True): longitude residual = image2sky(x, y) - requested longitude, wrapped into [-180, 180]",
-                 sym_and(_congruent(res[0], _first(lonP) - lon), res[0] >= -180, res[0] <= 180))
+        cx.check("sky2image(find=True): longitude residual lies in [-180, 180] (wrapped whichever side of the RA = 0 seam the iterate is on)",
+                 sym_and(res[0] >= -180, res[0] <= 180))
+        cx.check("sky2image(find=True): longitude residual = image2sky(x, y) - requested longitude modulo 360",
+                 _congruent(res[0], _first(lonP) - lon))
         cx.check("sky2image(find=True): returns the root that was found",
                  is_sym(_first(X)) and is_sym(_first(Y)) and str(_first(X).t) == "root0_x" and str(_first(Y).t) == "root0_y")
         cx.check("sky2image(find=True): result has the shape of the input", (form == "scalar") == (not isinstance(X, symnp.SArr) or X.ndim == 0))
